@@ -318,6 +318,10 @@ def lift(x):
         return z3.Int("lit_" + repr(xf))
     if isinstance(x, complex):
         return z3.Int("lit_" + repr(x))
+    if x is None:
+        # what Python itself does for arithmetic with None (e.g. the value of
+        # an unassigned variable in the interpreter)
+        raise TypeError("unsupported operand type(s): 'NoneType'")
     raise Unmodelled("cannot lift %r of type %s" % (x, type(x).__name__))
 
 
